@@ -56,15 +56,6 @@ def Spec.antichains (sp : Spec) (mx : Option Nat) : List Nat → List (List Nat)
     rest ++ (rest.filter (fun a => a.all (fun x => !(sp.le x e || sp.le e x)) &&
       (match mx with | some m => decide (a.length + 1 ≤ m) | none => true))).map (fun a => e :: a)
 
-def combos : Nat → List Nat → List (List Nat)
-  | 0, _ => [[]]
-  | _ + 1, [] => []
-  | k + 1, x :: r => (combos k r).map (x :: ·) ++ combos (k + 1) r
-
-def product : List Nat → List (List Nat)
-  | [] => [[]]
-  | s :: r => (List.range s).flatMap (fun i => (product r).map (i :: ·))
-
 def sortNat (l : List Nat) : List Nat := l.mergeSort (fun a b => decide (a ≤ b))
 def lexLe : List Nat → List Nat → Bool
   | [], _ => true
